@@ -22,9 +22,10 @@
 //! brought back if a snapshot needs them again"):
 //!   early_delete      a pack file disappears in a prune without instant-delete although it was not marked
 //!                     before, or was marked by a prune that started less than keep_delete before this one ended
-//!   mark_time         an entry that is NEW in `packs_to_delete` carries no time or a time before the start of
-//!                     the prune that wrote it (keep-delete would be counted from somewhere else); an entry that
-//!                     STAYS in `packs_to_delete` changed its time
+//!   mark_time         an entry that is NEW in `packs_to_delete` carries no time, or a time outside
+//!                     [start of the prune that wrote it, end of that prune call] (keep-delete would be counted from
+//!                     somewhere else; both the plan time and the time the index is written are inside); an entry
+//!                     that STAYS in `packs_to_delete` changed its time
 //!   index_entry_lost  a pack file that exists after the prune and was listed by the index before is listed in
 //!                     neither section afterwards (it can never be brought back)
 //! These three are "soft": the history goes on, a later check/restore/prune failure is reported instead (with
@@ -886,7 +887,8 @@ impl State {
                     match time_before.get(*p) {
                         None => match t {
                             // times are serialised with full precision; 2 ms slack for the clock
-                            Some(t) if *t + 2 >= start => {}
+                            Some(t) if *t + 2 >= start && *t <= end + 2 => {}
+                            Some(t) if *t > end + 2 => soft.push(("mark_time", format!("pack_{}_newly_marked_with_a_time_{}ms_after_the_prune_returned", &p[..8], t - end))),
                             Some(t) => soft.push(("mark_time", format!("pack_{}_newly_marked_with_time_{}ms_before_the_prune_started", &p[..8], start - t))),
                             None => soft.push(("mark_time", format!("pack_{}_newly_marked_without_time", &p[..8]))),
                         },
